@@ -15,7 +15,7 @@ import traceback
 from . import ir
 
 VERIF = ir.VERIF
-EVID = os.path.join(VERIF, "evidence")
+EVID = os.environ.get("VERIF_EVIDENCE_DIR") or os.path.join(VERIF, "evidence")
 KNOWN = os.path.join(VERIF, "known_findings.jsonl")
 
 
@@ -54,11 +54,38 @@ class Result:
     def rule(self, rid, instances, floor, note=""):
         self.rules[rid] = {"instances": instances, "floor": floor, "note": note}
         if instances < floor:
-            self.violations.append(Violation(rid, "%s|anchor-lost" % rid,
-                                             "anchor-lost: rule %s found %d instance(s), needs at least %d (%s)" % (rid, instances, floor, note)))
+            # The floor is the instance count confirmed by hand on the pinned tree.  Falling below it means the rule no
+            # longer sees the code it was written for (renamed private item, helper extracted or inlined).  That is not
+            # evidence that the property is broken, so it is reported as UNDECIDED (stdout + evidence) and does not fail
+            # the check - except for rules anchored on the public API itself (`*.entry`, `*.entries`), whose disappearance
+            # means the observed interface is gone, and under VERIF_STRICT_FLOORS=1 (used by bin/check-all on the
+            # unchanged tree, where every floor must hold).
+            msg = "anchor-lost: rule %s found %d instance(s), confirmed count is %d (%s)" % (rid, instances, floor, note)
+            if rid.endswith((".entry", ".entries")) or os.environ.get("VERIF_STRICT_FLOORS") == "1":
+                self.violations.append(Violation(rid, "%s|anchor-lost" % rid, msg))
+            else:
+                self.undecided += 1
+                self.extra.setdefault("anchors_lost", []).append(msg)
+                print("UNDECIDED: property=%s %s" % (self.prop, msg))
 
     def violate(self, rule, key, message, fn=None, span=None, details=None):
         self.violations.append(Violation(rule, key, message, fn, span, details))
+
+    def tri(self, ok, rule, key, message, fn=None, span=None, sample=None):
+        """three-valued verdict for one obligation: True = discharged, False = positive evidence of a violation,
+        None = the rule does not recognise the code shape (undecided; never an alarm)"""
+        self.obligations += 1
+        if ok is True:
+            self.discharged += 1
+            if sample:
+                self.sample(sample)
+        elif ok is False:
+            self.violate(rule, key, message, fn, span)
+        else:
+            self.undecided += 1
+            lst = self.extra.setdefault("undecided_items", [])
+            if len(lst) < 40:
+                lst.append("%s: not recognised (%s)" % (key, message[:160]))
 
     def sample(self, s):
         if len(self.samples) < 40:
@@ -91,6 +118,47 @@ def load_known():
 TRUSTED = ["rustc (nightly 1.97) MIR construction, type checking, trait resolution and const evaluation",
            "the /verif/driver fact extractor (prints MIR; no analysis)",
            "python3 standard library"]
+
+
+def self_validation(prop):
+    """thorough tier: the checker is run against scratch copies of the current tree with (a) each confirmed seeded change of
+    this property applied - it must report a violation - and (b) each behaviour-preserving variant applied - it must stay
+    silent.  Results are recorded in the evidence; they never change the verdict on the real tree."""
+    import shutil
+    import subprocess
+    import tempfile
+    out = {"seeded": {}, "benign": {}}
+    for kind in ("seeded", "benign"):
+        base = os.path.join(VERIF, kind)
+        if not os.path.isdir(base):
+            continue
+        for name in sorted(os.listdir(base)):
+            patch = os.path.join(base, name, "patch.diff")
+            if not os.path.exists(patch) or (kind == "seeded" and not name.startswith(prop)):
+                continue
+            tmp = tempfile.mkdtemp(prefix="selfcheck-")
+            try:
+                wt = os.path.join(tmp, "repo")
+                shutil.copytree(ir.REPO, wt, ignore=shutil.ignore_patterns("target", ".git"))
+                r = subprocess.run(["git", "apply", patch], cwd=wt, stdout=subprocess.PIPE, stderr=subprocess.STDOUT, text=True)
+                if r.returncode != 0:
+                    out[kind][name] = "patch does not apply to the current tree"
+                    continue
+                env = dict(os.environ, VERIF_REPO=wt, VERIF_EVIDENCE_DIR=os.path.join(tmp, "evidence"), VERIF_NO_SELFCHECK="1")
+                rr = subprocess.run([os.path.join(VERIF, "check"), prop, "--tier", "quick"], stdout=subprocess.PIPE, stderr=subprocess.STDOUT, text=True, cwd=VERIF, env=env)
+                rules = sorted(set(l.split(" rule=")[1].split(" ")[0] for l in rr.stdout.splitlines() if l.startswith("VIOLATION") and " rule=" in l))
+                crashed = any("checker-crashed" in l for l in rr.stdout.splitlines())
+                if kind == "seeded":
+                    out[kind][name] = {"detected": bool(rules), "rules": rules}
+                    if not rules:
+                        print("SELF-CHECK: seeded change %s is not detected by %s any more" % (name, prop))
+                else:
+                    out[kind][name] = {"silent": not rules and not crashed, "rules": rules}
+                    if rules or crashed:
+                        print("SELF-CHECK: behaviour-preserving variant %s makes %s report %s" % (name, prop, rules or "a crash"))
+            finally:
+                shutil.rmtree(tmp, ignore_errors=True)
+    return out
 
 
 def main(argv=None):
@@ -182,6 +250,8 @@ def main(argv=None):
         "rule": "one evaluation = one static obligation (rule instance at a program point) derived from the MIR of the current tree",
     }
     cov.update(res.extra)
+    if tier == "thorough" and not os.environ.get("VERIF_NO_SELFCHECK"):
+        cov["self_validation"] = self_validation(prop)
     ev = {
         "property_id": prop,
         "tier": tier,
